@@ -56,7 +56,7 @@ CLAIMED["C11"] = dict(
     text="Bounded symbolic execution with time as a solver variable: every selector wait and lock wait advances a virtual clock by a symbolic number of ticks. For _retry (via transport.recv/send), send_all / send_all_from_iterable, StreamEndpoint.recv_packet with a drip-fed frame (both receive paths) and the real TCPNetworkClient (send_packet, recv_packet, iter_received_packets with a contended lock): elapsed <= T, TimeoutError only when the whole budget is consumed, T = 0 never waits.",
     design="4/C11",
     technique="symbolic execution of real code (CrossHair+z3) with a virtual clock: elapsed times, readiness, would-block and lock contention as solver variables",
-    note="Processing time between waits is modelled as zero; integer ticks; <= K would-blocks per call (bounded unrolling, no loop-head induction).",
+    note="Processing time between waits is modelled as zero; integer ticks; <= K would-blocks per call in the SX shards; the KS shard adds loop-head induction (no bound on wake-ups / partial writes) for _retry, send_all and the sendmsg loop.",
 )
 
 CLAIMED["C10"] = dict(
@@ -170,6 +170,7 @@ def main():
         },
         "engines": [
             {"name": "sx", "path": "sx/", "serves_properties": sorted(CLAIMED), "kind_free_text": "solver-based: symbolic execution of the real Python code (CrossHair proxies, z3), sharded, with per-path concrete validation and clean-interpreter replay"},
+            {"name": "ks", "path": "ks/", "serves_properties": ["C04", "C11"], "kind_free_text": "solver-based: Python AST of the real retry/timeout loop bodies -> z3 (Reals), loop-head induction from an arbitrary state satisfying the budget invariant; translator validated against the real function on every run; sat obligations replayed on the real function"},
         ],
         "checks": checks,
         "not_applicable": na,
